@@ -49,9 +49,30 @@ def _install_all(icontract, A, Formatter) -> None:
     )(A.Type.nbytes)
 
     # -- Array.nbits ------------------------------------------------------------
+    # A postcondition that recomputes a size from the parts calls the (watched) size functions of the parts, which recompute theirs:
+    # on a schema whose definitions are reused with a wide fan-out (a small DAG with an exponential tree expansion) the MONITOR would
+    # need fan_out^depth steps where the code under observation memoises.  A verdict about a frozen node is therefore remembered with
+    # the result it was given for; a different result for the same node is checked again.
+    verified = {}
+
+    def once_per_node(name, check):
+        def cond(self, result):
+            key = (name, id(self))
+            e = verified.get(key)
+            if e is not None and e[0] is self and e[1] == result:
+                return True
+            _c(name)
+            ok = check(self, result)
+            if ok and getattr(self, "__frozen__", False):
+                verified[key] = (self, result)   # (the node is kept: its id cannot be reused)
+            return ok
+        cond.__name__ = check.__name__
+        return cond
+
     def array_nbits_ok(self, result):
-        _c("Array.nbits")
         return result == self.cap * self.element_type.nbits() + (16 if self.extensible else 0)
+
+    array_nbits_ok = once_per_node("Array.nbits", array_nbits_ok)
 
     A.Array.nbits = icontract.ensure(
         array_nbits_ok, error=lambda self, result: ContractBroken(f"Array.nbits({self!r})={result}")
@@ -59,9 +80,10 @@ def _install_all(icontract, A, Formatter) -> None:
 
     # -- Message.nbits ----------------------------------------------------------
     def message_nbits_ok(self, result):
-        _c("Message.nbits")
         fields = [m for m in self.members.values() if isinstance(m, A.MessageField)]
         return result == sum(f.type.nbits() for f in fields) + (16 if self.extensible else 0)
+
+    message_nbits_ok = once_per_node("Message.nbits", message_nbits_ok)
 
     A.Message.nbits = icontract.ensure(
         message_nbits_ok, error=lambda self, result: ContractBroken(f"Message.nbits({self!r})={result}")
